@@ -9,7 +9,8 @@ NAME_POOL = ["v1", "v10", "v2", "v11", "x", "xa", "a_b", "v3", "y1", "w", "v20",
 
 # [-2, -1, 0]: CPython hashes -1 and -2 to the same value (anything keyed on hash() of domain values must cope)
 INT_DOMS = [[0], [0, 1], [0, 1, 2], [1, 2, 3], [-1, 0, 1], [2, 5], [0, 1, 2, 3], [3], [-2, -1, 0]]
-STR_DOMS = [["R", "G"], ["R", "G", "B"], ["a"], ["on", "off"]]
+# ... and one domain mixing value types (nothing in the library requires homogeneous domains)
+STR_DOMS = [["R", "G"], ["R", "G", "B"], ["a"], ["on", "off"], ["off", 1, 2]]
 
 small_int_costs = st.integers(-50, 50)
 nonneg_int_costs = st.integers(0, 50)
